@@ -210,7 +210,7 @@ func natOpt(e ast.Expr, info *types.Info) (string, bool) {
 	}
 	if tv, ok := info.Types[e]; ok && tv.Value != nil {
 		if n, ok := coqN(tv.Value); ok {
-			return "(Some " + n + ")", true
+			return "(Some " + n + "%nat)", true
 		}
 	}
 	return "", false
@@ -375,7 +375,7 @@ func (c *bvCtx) stmts(body []ast.Stmt, resArrayLen string) []string {
 					}
 					// copy(R[:], a.X[lo:hi]) ; return R   with R a named array result
 					if lo, hi, ok := c.sliceOfRecv(call.Args[1]); ok && isNameOrFull(call.Args[0], c.result) && resArrayLen != "" {
-						out = append(out, fmt.Sprintf("SRetCopy %s %s (Some %s)", lo, hi, resArrayLen))
+						out = append(out, fmt.Sprintf("SRetCopy %s %s (Some %s%%nat)", lo, hi, resArrayLen))
 						continue
 					}
 				}
